@@ -29,10 +29,13 @@ def jobs(tier):
             J('h_orig_bam', L=L)
             J('h_resp_bam', L=L)
         for L in (1785,):
-            J('h_resp_cmdt', L=L, windows=255)
-            J('h_resp_cmdt', L=L, windows=1)
-            J('h_orig_bam', L=L)
-            J('h_resp_bam', L=L)
+            # 255 packets: concrete spacing / scheduling latency (a fresh symbolic real per packet makes every later
+            # query carry all earlier ones)
+            J('h_resp_cmdt', L=L, windows=255, gap='1/100', limit=255)
+            J('h_resp_cmdt', L=L, windows=255, gap='1/100', limit=16)
+            J('h_resp_cmdt', L=L, windows=1, gap='1/100', limit=255)
+            J('h_orig_bam', L=L, eps_sym=False)
+            J('h_resp_bam', L=L, gap='1/20')
     from . import tpref22
     out += tpref22.jobs('C03', tier)
     return out
